@@ -16,6 +16,7 @@ declare -A CHECKS=(
  [C16e]="C16" [C16f]="C16" [C16g]="C16" [C16h]="C16"
  [C06e]="C11 C06" [C06f]="C06 C10" [C07e]="C07 C15" [C07f]="C07" [C08e]="C08 C15" [C08f]="C08" [C11e]="C11 C15" [C11f]="C11"
  [C14e]="C14 C15" [C14f]="C14 C09" [C15e]="C15 C03" [C15f]="C15 C11" [C17e]="C17 C10" [C17f]="C17" [C18e]="C18" [C18f]="C18" [C05e]="C05" [C05f]="C05"
+ [C16i]="C16" [C16j]="C16" [C16k]="C16" [C16l]="C16"
  [C13c]="C13" [C13d]="C13" [C14c]="C14" [C14d]="C14 C07" [C15c]="C15" [C15d]="C15" [C16c]="C16" [C16d]="C16"
 )
 for s in "$@"; do
